@@ -27,7 +27,7 @@ def configs(tier):
     bud = 200 if q else 7000
     for bc in ('per', 'sym'):
         for fl in ('rusanov', 'hll'):
-            out.append({'model': 'shallowwater', 'flux': fl, 'bc': bc, 'timeout_ms': to, 'budget_s': bud, 'lemma': not q})
+            out.append({'model': 'shallowwater', 'flux': fl, 'bc': bc, 'timeout_ms': max(to, 60000) if fl == 'rusanov' else to, 'budget_s': max(bud, 290), 'lemma': not q})
         for fl in ('hlle', 'hllc'):
             for g in (['7/5'] if q else ['7/5', '2']):
                 out.append({'model': 'euler1d', 'flux': fl, 'bc': bc, 'gamma': g, 'timeout_ms': to, 'budget_s': bud, 'lemma': not q})
